@@ -732,9 +732,18 @@ def char_rendering(run, m, F, E):
             run.ob('R11.5', short(f.dem, 80), None, 'the units handed to the writer are not tracked on this path', disc=disc, loc=fn_loc(f))
             continue
         covered.append((lo, hi))
+        from .common import abstract_atoms
+        if any(abstract_atoms(u.lin) for u in units) or any(e[0] == 'widen' for e in s2.events):
+            # units assembled in a loop that was abstracted (filled back to front, say): their values are not functions of the
+            # code point on this path any more
+            run.ob('R11.5', short(f.dem, 80), None, 'the units handed to the writer are assembled in a loop that was abstracted: not compared', disc=disc, loc=fn_loc(f))
+            continue
         if hi < 0 or lo > 0x10FFFF:
             got = [single(s2, I.as_u(s2, u)) for u in units]
             ok = got == [0xEF, 0xBF, 0xBD]
+            if not ok and any(x is None for x in got):
+                run.ob('R11.5', short(f.dem, 80), None, 'the units rendered for a value outside 0..10FFFF are not constants on this path', disc=disc, loc=fn_loc(f))
+                continue
             run.ob('R11.5', short(f.dem, 80), ok, 'U+FFFD (EF BF BD)' if ok else 'a value outside 0..10FFFF (e.g. %d) renders as %s, expected EF BF BD' % (
                 lo if lo > 0x10FFFF else hi, ' '.join('%02X' % (x & 0xFF) if x is not None else '??' for x in got) or '(nothing)'), disc=disc, loc=fn_loc(f))
             continue
